@@ -116,10 +116,10 @@ Proof. intros s W. split; [exact (rt_secrets true s W)|exact (rt_secrets false s
 Theorem C20_serde_LockTime : forall l, locktime_to_consensus l < 4294967296 -> RT (fun _ : bool => ser_locktime) (fun _ : bool => de_locktime) l.
 Proof. intros l W. split; [exact (rt_locktime true l W)|exact (rt_locktime false l W)]. Qed.
 (* leaves: hash newtypes (every entry of the regenerated table), Script, blinding factors *)
-Theorem C20_serde_hash_newtypes : forall name len db pb b, In (name, (len, (db, pb))) hash_text_table -> N.of_nat (length b) = len ->
+Theorem C20_serde_hash_newtypes : forall name len db pb b, In (name, (len, (db, pb))) hash_serde_table -> N.of_nat (length b) = len ->
   RT (fun hr => ser_hash hr db) (fun hr => de_hash hr len pb) b.
 Proof. intros name len db pb b HIn L.
-  assert (D : forallb (fun e => Bool.eqb (fst (snd (snd e))) (snd (snd (snd e)))) hash_text_table = true) by (vm_compute; reflexivity).
+  assert (D : forallb (fun e => Bool.eqb (fst (snd (snd e))) (snd (snd (snd e)))) hash_serde_table = true) by (vm_compute; reflexivity).
   rewrite forallb_forall in D. specialize (D _ HIn). cbn in D. apply Bool.eqb_prop in D. subst pb.
   split; [exact (rt_hash true len db b L)|exact (rt_hash false len db b L)]. Qed.
 Theorem C20_serde_midstate_wrappers : forall b, length b = 32%nat -> RT ser_midstate de_midstate b.       (* AssetId, AssetEntropy, ParamsRoot, ElidedRoot, DynafedRoot *)
